@@ -83,7 +83,7 @@ pub fn decode_program(data: &[u8]) -> Option<(Program, u8)> {
             _ => Op::FixImport,
         });
     }
-    Some((Program { k, ops, spread: data[1] / 51 }, goal))
+    Some((Program { k, ops, spread: data[1] / 37 }, goal))
 }
 
 /// C06 / C07 / C13 (/ C19 without re-materialisations): generated op sequence under all oracles.
